@@ -233,6 +233,17 @@ theorem gfpAdd_asm_field (s : State) (junk : Nat) (bmi2 : Bool)
   exact ⟨s', h, by rw [hv, (add_sub_neg_reduced _ _ hap hbp).1]⟩
 
 /-! non-vacuity: concrete instances -/
+-- a machine state satisfying the hypotheses of the assembly theorems (operands p−1 and 2^256−1, c aliased to a)
+example : (load4 (initState (fun | .c => .a | k => k) (L4.ofNat (Bn256.p - 1)) (L4.ofNat (R - 1))).mem .a).ok ∧
+    (load4 (initState (fun | .c => .a | k => k) (L4.ofNat (Bn256.p - 1)) (L4.ofNat (R - 1))).mem .b).ok ∧
+    (load4 (initState (fun | .c => .a | k => k) (L4.ofNat (Bn256.p - 1)) (L4.ofNat (R - 1))).mem .a).val *
+      (load4 (initState (fun | .c => .a | k => k) (L4.ofNat (Bn256.p - 1)) (L4.ofNat (R - 1))).mem .b).val
+      < R * Bn256.p := by
+  refine ⟨?_, ?_, ?_⟩ <;> (try unfold L4.ok) <;> decide
+-- REDC on a concrete T just below R·p
+example : redc Bn256.p Bn256.np (R * Bn256.p - 1) < Bn256.p := by decide
+-- reduced non-zero element for the inverse theorems
+example : (GFp.newGFp 7).v < Bn256.p ∧ (GFp.newGFp 7).v ≠ 0 := by decide
 example : addM Bn256.p (Bn256.p - 1) (Bn256.p - 1) = Bn256.p - 2 := by decide
 example : subM Bn256.p 0 1 = Bn256.p - 1 := by decide
 example : negM Bn256.p 0 = 0 := by decide
